@@ -33,6 +33,7 @@ func init() {
 			{ID: "C07-R9", Title: "the run context is derived from this invocation's context", Floor: 1, Run: runCtxFromArgument},
 			{ID: "C07-R10", Title: "the reset does not read the registers it resets", Floor: 1, Run: resetIndependentOfState},
 			{ID: "C07-R11", Title: "results are cached only after their error was checked", Floor: 3, Run: func(c *core.Ctx) { publishBeforeErrorCheck(c) }},
+			{ID: "C07-R12", Title: "errors are not cached across invocations", Floor: 1, Run: errorsAreNotCached},
 			{ID: "C07-R5", Title: "VM-level caches are filled only after the fallible work succeeded", Floor: 1, Run: c07r5},
 		},
 	})
